@@ -5,9 +5,17 @@ import Asn1Verif.Front.ParserLemmas
 namespace Asn1Verif.Front.Syn
 open Except
 
-theorem eqIC_MIN_MIN : eqIC "MIN" "MIN" = true := by decide
-theorem eqIC_MAX_MAX : eqIC "MAX" "MAX" = true := by decide
 theorem eqIC_SIZE_SIZE : eqIC "SIZE" "SIZE" = true := by decide
+
+/-- a printed number is not spelled like the keyword -/
+theorem int_ne_MIN (i : Int) : toString i ≠ "MIN" := by
+  intro h; have := eqIC_int_MIN i; rw [h] at this; exact absurd this (by decide)
+theorem int_ne_MAX (i : Int) : toString i ≠ "MAX" := by
+  intro h; have := eqIC_int_MAX i; rw [h] at this; exact absurd this (by decide)
+theorem nat_ne_MIN (n : Nat) : toString n ≠ "MIN" := by
+  intro h; have := eqIC_nat_MIN n; rw [h] at this; exact absurd this (by decide)
+theorem nat_ne_MAX (n : Nat) : toString n ≠ "MAX" := by
+  intro h; have := eqIC_nat_MAX n; rw [h] at this; exact absurd this (by decide)
 
 /-! ### `, ...` -/
 
@@ -17,22 +25,20 @@ theorem eqIC_SIZE_SIZE : eqIC "SIZE" "SIZE" = true := by decide
 
 /-! ### INTEGER -/
 
-theorem rangeBound_print (kw : String) (hkw : eqIC kw kw = true)
-    (hint : ∀ i : Int, eqIC (toString i) kw = false)
-    (b : Option URange) (hw : boundWf b = true) (hk : boundNoKwRef kw b = true) :
+theorem rangeBound_print (kw : String) (hint : ∀ i : Int, toString i ≠ kw)
+    (b : Option URange) (hw : boundWf kw b = true) :
     rangeBound (printRangeBound kw b) kw = b := by
   cases b with
-  | none => simp [printRangeBound, rangeBound, hkw]
+  | none => simp [printRangeBound, rangeBound]
   | some l =>
     cases l with
     | lit i =>
       have h' : I64_MIN ≤ i ∧ i ≤ I64_MAX := by simpa [boundWf, inI64] using hw
-      simp only [printRangeBound, rangeBound, tInt, hint i, parseI64_toString i h'.1 h'.2]
-      rfl
+      simp only [printRangeBound, rangeBound, tInt, if_neg (hint i), parseI64_toString i h'.1 h'.2]
     | ref s =>
-      have h1 : eqIC s kw = false := by simpa [boundNoKwRef] using hk
-      have h2 : parseI64 s = none := by simpa [boundWf, intRefWf] using hw
-      simp [printRangeBound, rangeBound, h1, h2]
+      simp only [boundWf, intRefWf, Bool.and_eq_true, Option.isNone_iff_eq_none, bne_iff_ne,
+        ne_eq] at hw
+      simp [printRangeBound, rangeBound, hw.1, hw.2]
 
 theorem integerRange_id (r : Range URange) (hw : rangeNoWiden r = true) :
     integerRange r.min r.max r.ext = r := by
@@ -52,13 +58,12 @@ theorem integerRange_id (r : Range URange) (hw : rangeNoWiden r = true) :
 
 /-- `parse_print_Integer`: named numbers and range (bounds, `MIN`/`MAX`, extensibility) -/
 theorem parseInteger_print (r : Range URange) (cs : List (String × Int))
-    (hr : rangeWf r = true) (hw : rangeNoWiden r = true) (hk : rangeNoKwRef r = true)
+    (hr : rangeWf r = true) (hw : rangeNoWiden r = true)
     (hcs : constsWfI cs = true) (fuel : Nat) (hfuel : cs.length ≤ fuel)
     (rest : List Token) (hrest : RestOk rest) :
     parseInteger fuel (printConstants tInt cs ++ (printRange r ++ rest)) = .ok ((r, cs), rest) := by
   unfold rangeWf at hr
-  unfold rangeNoKwRef at hk
-  simp only [Bool.and_eq_true] at hr hk
+  simp only [Bool.and_eq_true] at hr
   unfold parseInteger
   by_cases hnone : r.min = none ∧ r.max = none ∧ r.ext = false
   · have hc := maybeReadConstants_print tInt constantI64 inI64 constantI64_tInt cs hcs fuel hfuel
@@ -69,8 +74,8 @@ theorem parseInteger_print (r : Range URange) (cs : List (String × Int))
     obtain ⟨h1, h2, h3⟩ := hnone
     subst h1 h2 h3
     rfl
-  · have hb1 := rangeBound_print "MIN" eqIC_MIN_MIN eqIC_int_MIN r.min hr.1 hk.1
-    have hb2 := rangeBound_print "MAX" eqIC_MAX_MAX eqIC_int_MAX r.max hr.2 hk.2
+  · have hb1 := rangeBound_print "MIN" int_ne_MIN r.min hr.1
+    have hb2 := rangeBound_print "MAX" int_ne_MAX r.max hr.2
     have hsep1 : ∀ c, (printRangeBound "MIN" r.min).eqSep c = false := by
       intro c; cases r.min with
       | none => rfl
@@ -82,44 +87,48 @@ theorem parseInteger_print (r : Range URange) (cs : List (String × Int))
 
 /-! ### SIZE -/
 
-theorem sizeBound_print_lit (kw : String) (hnat : ∀ n : Nat, eqIC (toString n) kw = false)
+theorem sizeBound_print_lit (kw : String) (hnat : ∀ n : Nat, toString n ≠ kw)
     (drop n : Nat) (h : inU64 n = true) :
     sizeBound (tNat n) kw drop = if n = drop then none else some (.lit n) := by
   have h' : n ≤ U64_MAX := by simpa [inU64] using h
-  simp only [sizeBound, tNat, hnat n, parseU64_toString n h']
-  rfl
+  simp only [sizeBound, tNat, if_neg (hnat n), parseU64_toString n h']
 
-theorem sizeBound_print_ref (kw s : String) (drop : Nat) (h1 : eqIC s kw = false)
+theorem sizeBound_print_ref (kw s : String) (drop : Nat) (h1 : s ≠ kw)
     (h2 : parseU64 s = none) : sizeBound (.text s) kw drop = some (.ref s) := by
   simp [sizeBound, h1, h2]
 
+theorem sizeAtomWf_ref (kw s : String) (h : sizeAtomWf kw (.ref s) = true) :
+    s ≠ kw ∧ parseU64 s = none := by
+  simp only [sizeAtomWf, Bool.and_eq_true, Option.isNone_iff_eq_none, bne_iff_ne, ne_eq] at h
+  exact ⟨h.2, h.1⟩
+
 /-- the lower bound as printed and read: `0` is dropped and comes back as the default `Lit(0)` -/
-theorem sizeStart_print (a : USz) (hw : sizeAtomWf a = true) (hk : sizeAtomNoKwRef "MIN" a = true) :
+theorem sizeStart_print (a : USz) (hw : sizeAtomWf "MIN" a = true) :
     sizeStartOr0 (sizeBound (printSizeBound a) "MIN" 0) = a ∧
       ((sizeBound (printSizeBound a) "MIN" 0).isNone = decide (a = .lit 0)) := by
   cases a with
   | lit n =>
-    rw [printSizeBound, sizeBound_print_lit "MIN" eqIC_nat_MIN 0 n (by simpa [sizeAtomWf] using hw)]
+    rw [printSizeBound, sizeBound_print_lit "MIN" nat_ne_MIN 0 n (by simpa [sizeAtomWf] using hw)]
     by_cases h0 : n = 0
     · subst h0; simp [sizeStartOr0]
     · simp [h0, sizeStartOr0]
   | ref s =>
-    rw [printSizeBound, sizeBound_print_ref "MIN" s 0 (by simpa [sizeAtomNoKwRef] using hk)
-      (by simpa [sizeAtomWf] using hw)]
+    rw [printSizeBound, sizeBound_print_ref "MIN" s 0 (sizeAtomWf_ref _ _ hw).1
+      (sizeAtomWf_ref _ _ hw).2]
     simp [sizeStartOr0]
 
-theorem sizeStop_print (b : USz) (hw : sizeAtomWf b = true) (hk : sizeAtomNoKwRef "MAX" b = true) :
+theorem sizeStop_print (b : USz) (hw : sizeAtomWf "MAX" b = true) :
     (sizeBound (printSizeBound b) "MAX" SIZE_MAX).getD (.lit SIZE_MAX) = b ∧
       ((sizeBound (printSizeBound b) "MAX" SIZE_MAX).isNone = decide (b = .lit SIZE_MAX)) := by
   cases b with
   | lit n =>
-    rw [printSizeBound, sizeBound_print_lit "MAX" eqIC_nat_MAX SIZE_MAX n (by simpa [sizeAtomWf] using hw)]
+    rw [printSizeBound, sizeBound_print_lit "MAX" nat_ne_MAX SIZE_MAX n (by simpa [sizeAtomWf] using hw)]
     by_cases h0 : n = SIZE_MAX
     · subst h0; simp
     · simp [h0]
   | ref s =>
-    rw [printSizeBound, sizeBound_print_ref "MAX" s SIZE_MAX (by simpa [sizeAtomNoKwRef] using hk)
-      (by simpa [sizeAtomWf] using hw)]
+    rw [printSizeBound, sizeBound_print_ref "MAX" s SIZE_MAX (sizeAtomWf_ref _ _ hw).1
+      (sizeAtomWf_ref _ _ hw).2]
     simp
 
 @[simp] theorem printSizeBound_eqSep (a : USz) (c : Char) : (printSizeBound a).eqSep c = false := by
@@ -127,23 +136,22 @@ theorem sizeStop_print (b : USz) (hw : sizeAtomWf b = true) (hk : sizeAtomNoKwRe
 
 /-- `parse_print_Size`: all forms of the constraint with their extensibility; the result is the
     canonical form -/
-theorem maybeReadSize_print (s : Size USz) (hw : sizeWf s = true) (hk : sizeNoKwRef s = true)
+theorem maybeReadSize_print (s : Size USz) (hw : sizeWf s = true)
     (rest : List Token) (hrest : RestOk rest) :
     maybeReadSize (printSize s ++ rest) = .ok (canonSize s, rest) := by
   cases s with
   | any =>
     simp [printSize, maybeReadSize, hrest.paren, hrest.size, canonSize]
   | fix n e =>
-    obtain ⟨h1, _⟩ := sizeStart_print n (by simpa [sizeWf] using hw) (by simpa [sizeNoKwRef] using hk)
+    obtain ⟨h1, _⟩ := sizeStart_print n (by simpa [sizeWf] using hw)
     cases e <;>
       simp [printSize, maybeReadSize, parseSize, eqIC_SIZE_SIZE, printExt, h1, canonSize]
   | range a b e =>
     simp only [sizeWf, Bool.and_eq_true, Bool.not_eq_true', Bool.and_eq_false_iff,
       beq_eq_false_iff_ne] at hw
-    simp only [sizeNoKwRef, Bool.and_eq_true] at hk
     obtain ⟨⟨ha, hb⟩, hany⟩ := hw
-    obtain ⟨h1, h1n⟩ := sizeStart_print a ha hk.1
-    obtain ⟨h2, h2n⟩ := sizeStop_print b hb hk.2
+    obtain ⟨h1, h1n⟩ := sizeStart_print a ha
+    obtain ⟨h2, h2n⟩ := sizeStop_print b hb
     by_cases hab : a = .lit 0 ∧ b = .lit SIZE_MAX
     · have he : e = false := by
         cases hany with
